@@ -458,6 +458,9 @@ def sample_match(rng, sexp_tokens, maxlen=40):
             pos[0] += 1
             allc = [b for b in range(256) if f(b)]
             cands = [b for b in ALPHA if f(b)] or allc
+            high = [b for b in allc if b >= 0x80]
+            if high and rng.chance(1, 5):
+                return bytes([rng.choice([high[0], high[-1], rng.choice(high)])])      # the upper half of the byte range
             if allc and rng.chance(1, 3):
                 # the extreme members of the set: lowest, highest, high/low nibble F or 0, and the other case of letters
                 ext = [allc[0], allc[-1]] + [b for b in allc if b & 0x0F in (0, 15) or b >> 4 in (0, 15)][:8] + [b for b in allc if chr(b) in "zZaA\n\r"] + \
